@@ -7,11 +7,13 @@ verus! {
 //@ rewrite R2 "dyn CosmosRouter<ExecC = ExecC, QueryC = QueryC>" => "dyn CosmosRouter<ExecC, QueryC>"
 //@ include prelude/base.rs
 //@ include spec/lex.rs
+//@ include spec/lp.rs
 //@ include prelude/std_ext.rs
 //@ include prelude/cosmwasm.rs
 //@ include contracts/repo_types.rs
 //@ include prelude/router_traits.rs
 //@ include prelude/wasm_traits.rs
+//@ include prelude/cw_plus.rs
 //@ include contracts/wasm_types.rs
 //@ include spec/wasm_sem.rs
 //@ include_stubs contracts/transactional_only.rs
